@@ -119,8 +119,8 @@ Proof. apply pre_same, fail_with_same. Qed.
 Lemma pre_finish_with s s1 h r : pre_of s s1 h -> pre_of s (finish_with s1 r) h.
 Proof. apply pre_same, finish_with_same. Qed.
 
-Lemma pre_set_paging s s1 h b : pre_of s s1 h -> pre_of s (set_paging s1 b) h.
-Proof. intros (P & C & M). split; [exact P|split; [exact C|]]. intros y Hy. apply M. exact Hy. Qed.
+Lemma pre_finish_rows s s1 h b : pre_of s s1 h -> pre_of s (finish_rows s1 b) h.
+Proof. apply pre_same, finish_rows_same. Qed.
 
 Lemma pre_set_spec s s1 h a l : pre_of s s1 h -> pre_of s (set_spec s1 a l) h.
 Proof. intros (P & C & M). split; [exact P|split; [exact C|]]. intros y Hy. apply M. exact Hy. Qed.
@@ -198,9 +198,9 @@ Lemma set_result_pre c s s0 h r s' ev : pre_of s s0 h -> set_result c s0 h r = (
   pre_of s s' h /\ plan_sends ev = [] /\ sent_hosts ev = [].
 Proof.
   intros Pre H. destruct r; cbn [set_result] in H.
-  - inversion H; subst. split; [apply pre_finish_with, pre_set_paging; assumption|auto].
+  - inversion H; subst. split; [apply pre_finish_rows; assumption|auto].
   - inversion H; subst. split; [apply pre_finish_with; assumption|auto].
-  - inversion H; subst. split; [apply pre_finish_with, pre_set_paging; assumption|auto].
+  - inversion H; subst. split; [apply pre_finish_rows; assumption|auto].
   - inversion H; subst. split; [apply pre_finish_with; assumption|auto].
   - destruct (pol c (nconsult s0) k tag (retries s0) (if request_error_kind k then msg_cl s0 else None)) as [d dcl].
     unfold handle_decision in H. inversion H; subst; clear H. split; [|auto].
@@ -318,7 +318,8 @@ Proof.
     assert (P0 : pre_of s (set_attempts s (mark_done i (attempts s))) (a_host a)) by apply pre_set_attempts_done.
     destruct (a_prep a).
     + inversion H; subst. apply (pre_ok _ s _ (a_host a)); auto. apply pre_push; [reflexivity|exact P0].
-    + destruct (set_result_pre _ _ _ _ _ _ _ P0 H) as (P1 & E1 & E2). apply (pre_ok _ s _ (a_host a)); auto.
+    + destruct (Nat.eqb (a_page a) (page_no s)); [|inversion H; subst; apply (pre_ok _ s _ (a_host a)); auto].
+      destruct (set_result_pre _ _ _ _ _ _ _ P0 H) as (P1 & E1 & E2). apply (pre_ok _ s _ (a_host a)); auto.
   - destruct (nth_error (queue s) k) as [t|] eqn:N; [|inversion H; subst; apply ok_same; reflexivity].
     eapply run_task_ok; [apply pre_set_queue_deq| |exact H].
     intros A. apply A, hosts_nil_split. right; left. eapply nth_error_task_in; eauto.
